@@ -14,6 +14,7 @@ MAP = [  # (substring of meta['function'], checks to run)
     ('transform_package', ['C12']), ('build_fast_check_type_graph', ['C12']),
     ('resolve_pending_jsr_specifiers', ['C07', 'C03', 'C06']), ('handle_jsr_registry_pending_content_loads', ['C03', 'C20']),
     ('load_with_redirect_count', ['C07', 'C03', 'C01']), ('visit_module_dependencies', ['C01', 'C07']), ('mark_jsr_dep', ['C07']), ('mark_npm_dep', ['C07']),
+    ('Builder::build', ['C01']), ('resolve_dynamic_branches', ['C01']), ('handle_provided_imports', ['C01']), ('NpmSpecifierResolver', ['C03']), ('Builder::restart', ['C06', 'C03']), ('Builder::visit', ['C05', 'C03']),
     ('maybe_mark_dep', ['C07', 'C03']), ('Builder::resolve_pending', ['C03']), ('ensure_package', ['C07']), ('add_dependency', ['C07']),
 ]
 only = sys.argv[1:]
